@@ -126,7 +126,7 @@ Lemma k_first_bk d x : wf x -> lead_pos d (ash x) -> k_first d x = run_bk bk_fir
 Proof.
   intros W L. apply lead_pos_dmin in L. unfold k_first.
   destruct (dmin d x) as [|dm] eqn:Ed.
-  - rewrite <- first_bk0; auto. unfold run_bk. rewrite Ed. unfold dmin. rewrite Nat.min_0_l. reflexivity.
+  - change (p_first None x) with (sem FFirst x). rewrite <- first_bk0; auto. unfold run_bk. rewrite Ed. unfold dmin. rewrite Nat.min_0_l. reflexivity.
   - unfold run_bk. rewrite Ed. unfold bk_first; cbn [bk_data bk_ty bk_shape].
     pose proof (blocks_len (S dm) x W) as F. rewrite Forall_forall in F.
     destruct (skipn (S dm) (ash x)) as [|[|[|n]] rest] eqn:E.
@@ -141,7 +141,7 @@ Lemma k_last_bk d x : wf x -> lead_pos d (ash x) -> k_last d x = run_bk bk_last 
 Proof.
   intros W L. apply lead_pos_dmin in L. unfold k_last.
   destruct (dmin d x) as [|dm] eqn:Ed.
-  - rewrite <- last_bk0; auto. unfold run_bk. rewrite Ed. unfold dmin. rewrite Nat.min_0_l. reflexivity.
+  - change (p_last None x) with (sem FLast x). rewrite <- last_bk0; auto. unfold run_bk. rewrite Ed. unfold dmin. rewrite Nat.min_0_l. reflexivity.
   - unfold run_bk. rewrite Ed. unfold bk_last; cbn [bk_data bk_ty bk_shape].
     destruct (skipn (S dm) (ash x)) as [|[|[|n]] rest] eqn:E.
     + rewrite (mapM_ok_map (fun b => b)), map_id. cbn [bind tl]. rewrite blocks_concat, app_nil_r, skipn_nil_firstn; auto. destruct x; reflexivity.
